@@ -11,7 +11,7 @@ from ..core import Sub
 PROP = {
     "id": "C14",
     "level": "exploration",
-    "technique": "Hypothesis-generated pairs (a, b) per (block type x relation): b = a, an independent rebuild of a, decode(encode(a)), or a with exactly one element/field changed, appended or removed; oracle: the expected truth value of a == b follows from the relation; both argument orders; file-level pairs built the same way (time stamps of the two files equalised)",
+    "technique": "Hypothesis-generated pairs (a, b) per (block type x relation): b = a, an independent rebuild of a, decode(encode(a)), or a with exactly one element/field changed, appended or removed; oracle: the expected truth value of a == b follows from the relation; both argument orders; file-level pairs built the same way (time stamps of the two files equalised); enumerated: every file relation (incl. a long-lived object compared after its file was edited through another object), operands whose arrays are views of one buffer, recordings of 65537 / 70000 frames",
     "level_text": ("Exploration over a (type x relation) matrix: every cell is its own Hypothesis test with its own finding key, so that several "
                    "independent root causes (prefix-only comparison, ignored channel map, NaN != NaN, missing value equality) are reported "
                    "separately. Expected answers are derived from how b was produced from a, never from the library."),
